@@ -211,6 +211,14 @@ def mergeable : Cls → Bool
   | .base false _ _ => true
   | _ => false
 
+/-- the options word of the node a merge leaves behind: `prev.T = NtSet` keeps `prev.Ch`, and
+    `extractCommonPrefixOneNotoneSet` compares `Ch` of Set nodes too — a Set that came from a One is
+    not "the same node" as a parsed Set with the same class.  The exporter folds a stale `Ch` of a Set
+    node into the options word (`o + Ch·2¹⁶`), the only place where it matters. -/
+def mergedOpts (po : Nat) : CP → Nat
+  | .one c => po + c * 65536
+  | _ => po
+
 /-- the class a One or Set branch contributes -/
 def letterCls : CP → Option Cls
   | .one c => some (.base false [(c, c)] [])
@@ -235,7 +243,7 @@ def mergeGo (ll : Bool) : List RNode → Bool → Bool → List RNode → List R
         match out.getLast?, out.dropLast with
         | some (.chr po pp), front =>
           match (letterCls pp).bind (fun s => if ll || clsDisjoint s (.base false [(c, c)] []) then mergeCls s (.base false [(c, c)] []) else none) with
-          | some s => mergeGo ll (front ++ [.chr po (.set s)]) true (!mergeable s) rest
+          | some s => mergeGo ll (front ++ [.chr (mergedOpts po pp) (.set s)]) true (!mergeable s) rest
           | none => mergeGo ll (out ++ [.chr o (.one c)]) true false rest
         | _, _ => mergeGo ll (out ++ [nd]) true false rest
     | .chr o (.set s) =>
@@ -244,7 +252,7 @@ def mergeGo (ll : Bool) : List RNode → Bool → Bool → List RNode → List R
         match out.getLast?, out.dropLast with
         | some (.chr po pp), front =>
           match (letterCls pp).bind (fun s0 => if ll || clsDisjoint s0 s then mergeCls s0 s else none) with
-          | some s2 => mergeGo ll (front ++ [.chr po (.set s2)]) true (!mergeable s2) rest
+          | some s2 => mergeGo ll (front ++ [.chr (mergedOpts po pp) (.set s2)]) true (!mergeable s2) rest
           | none => mergeGo ll (out ++ [.chr o (.set s)]) true (!mergeable s) rest
         | _, _ => mergeGo ll (out ++ [nd]) true (!mergeable s) rest
     | _ => mergeGo ll (out ++ [nd]) false false rest
